@@ -79,8 +79,8 @@ func (m ExtMutation) Payload(c *Chain, n *Node, h int64) []byte {
 
 // ProposalMutation is one single-element tampering of the injected vote-extension tx.
 type ProposalMutation struct {
-	Kind  string `json:"kind"`  // alter | drop | append | dup | commit_ext | commit_drop | commit_flag | not_json | height | swap
-	List  string `json:"list"`  // op_addrs | evm_addrs | vs_ops | vs_ts | vs_sigs | oa_ops | oa_att | oa_snap
+	Kind  string `json:"kind"` // alter | drop | append | dup | commit_ext | commit_drop | commit_flag | not_json | height | swap
+	List  string `json:"list"` // op_addrs | evm_addrs | vs_ops | vs_ts | vs_sigs | oa_ops | oa_att | oa_snap
 	Index int    `json:"index"`
 }
 
